@@ -64,6 +64,14 @@ fn piece_json(p: &Piece) -> String {
 }
 fn pieces_coq(v: &[Piece]) -> String { format!("[{}]", v.iter().map(piece_coq).collect::<Vec<_>>().join("; ")) }
 fn pieces_json(v: &[Piece]) -> String { format!("[{}]", v.iter().map(piece_json).collect::<Vec<_>>().join(",")) }
+/// the triangles handed to the user by get_trilist, in full (a, b, c, normal, area: 13 numbers each) -- for the Coq runner,
+/// which compares them with the model's [get_trilist]
+fn trilist_coq(t: &Triangulation3D) -> String {
+    let l = t.get_trilist();
+    let f: Vec<Float> = l.iter().flat_map(|t| { let (a, b, c, n) = (t.a(), t.b(), t.c(), t.normal()); vec![a.x, a.y, a.z, b.x, b.y, b.z, c.x, c.y, c.z, n.x, n.y, n.z, t.area()] }).collect();
+    if f.is_empty() { "(@nil spec_float)".to_string() } else { sfs(&f) }
+}
+const NO_TRILIST: &str = "(@nil spec_float)";
 /// the triangles handed to the user by get_trilist (vertices only) -- JSON
 fn trilist_json(t: &Triangulation3D) -> String {
     let l = t.get_trilist();
@@ -166,6 +174,14 @@ pub fn rand_polycase(r: &mut Rng, nmax: usize, max_holes: usize, size_cap: f64, 
     if poly.len() > 40 { poly = base.clone(); }
     if r.chance(0.5) { poly = reversed(&poly); }
     poly = rotate_start(&poly, r.below(poly.len() as u64) as usize);
+    // start-vertex boundary case: describe the outline so that its FIRST corner (vertices 0, 1, 2) is a reflex one - the
+    // provisional normal of an open loop comes from that corner and points the wrong way until close() corrects it
+    if r.chance(0.35) {
+        let n = poly.len(); let sg = area2(&poly).signum();
+        let reflex: Vec<usize> = (0..n).filter(|&i| { let (a, b, c) = (poly[(i + n - 1) % n], poly[i], poly[(i + 1) % n]);
+            ((b.0 - a.0) * (c.1 - b.1) - (b.1 - a.1) * (c.0 - b.0)) * sg < -1e-9 }).collect();
+        if !reflex.is_empty() { let i = *r.pick(&reflex); poly = rotate_start(&poly, (i + n - 1) % n); }
+    }
     let ext = base.iter().fold(0.0f64, |m, p| m.max(p.0.abs()).max(p.1.abs()));
     let (xmin, xmax) = base.iter().fold((f64::MAX, f64::MIN), |m, p| (m.0.min(p.0), m.1.max(p.0)));
     let (ymin, ymax) = base.iter().fold((f64::MAX, f64::MIN), |m, p| (m.0.min(p.1), m.1.max(p.1)));
@@ -230,29 +246,55 @@ fn run_limited<T: Send + 'static>(secs: u64, f: impl FnOnce() -> T + Send + 'sta
 // ---------------------------------------------------------------------------------------------
 fn fp_case(pc: &PolyCase, sink: &mut Sink) {
     let built = build_polygon(&pc.outer, &pc.holes);
-    let (bclass, oclass, pieces, nvalid, msg, ms, pj, tl) = match &built {
-        Err(c) => (*c, 0u32, vec![], 0usize, String::new(), 0.0, poly_json(&pc.outer, &pc.holes, None), "[]".to_string()),
+    let (bclass, oclass, pieces, nvalid, msg, ms, pj, tl, tlc) = match &built {
+        Err(c) => (*c, 0u32, vec![], 0usize, String::new(), 0.0, poly_json(&pc.outer, &pc.holes, None), "[]".to_string(), NO_TRILIST.to_string()),
         Ok(p) => {
             let t0 = Instant::now();
             let r = catch(AssertUnwindSafe(|| Triangulation3D::from_polygon(p)));
             let ms = t0.elapsed().as_secs_f64() * 1e3;
             let pj = poly_json(&pc.outer, &pc.holes, Some(p));
             match r {
-                Ok(Ok(t)) => (0, 0, snapshot(&t), t.n_valid_triangles(), String::new(), ms, pj, trilist_json(&t)),
-                Ok(Err(m)) => (0, err_class(&m), vec![], 0, short_msg(&m), ms, pj, "[]".to_string()),
-                Err(m) => (0, panic_class(&m), vec![], 0, short_msg(&m), ms, pj, "[]".to_string()),
+                Ok(Ok(t)) => (0, 0, snapshot(&t), t.n_valid_triangles(), String::new(), ms, pj, trilist_json(&t), trilist_coq(&t)),
+                Ok(Err(m)) => (0, err_class(&m), vec![], 0, short_msg(&m), ms, pj, "[]".to_string(), NO_TRILIST.to_string()),
+                Err(m) => (0, panic_class(&m), vec![], 0, short_msg(&m), ms, pj, "[]".to_string(), NO_TRILIST.to_string()),
             }
         }
     };
     sink.push(
-        format!("CFP {} {} {}%N {}%N {} {}%N", pts_coq(&pc.outer), holes_coq(&pc.holes), bclass, oclass, pieces_coq(&pieces), nvalid),
+        format!("CFP {} {} {}%N {}%N {} {}%N {}", pts_coq(&pc.outer), holes_coq(&pc.holes), bclass, oclass, pieces_coq(&pieces), nvalid, tlc),
         format!("{{\"kind\":\"fp\",\"note\":\"{}\",\"bridge_ok\":{},{},\"build\":{},\"o\":{},\"msg\":\"{}\",\"ms\":{:.3},\"pieces\":{},\"nvalid\":{},\"trilist\":{}}}",
                 pc.note, pc.bridge_ok, pj, bclass, oclass, msg, ms, pieces_json(&pieces), nvalid, tl),
     );
 }
+/// corpus of the from_polygon streams: hole-free grid outlines in which the closing chord of a convex corner passes EXACTLY
+/// through a re-entrant vertex elsewhere on the outline (the diagonal of a 4 x 2 block through the corner (2,1) of a notch):
+/// is_diagonal cannot see a chord that only touches the outline at a vertex, so the "no other vertex in the ear" test must
+/// reject boundary contacts too (seeded change C09-m3).  Every start vertex and both windings, in a random coordinate plane.
+fn aligned_chord_corpus(r: &mut Rng) -> Vec<PolyCase> {
+    let cat: [&[(i32, i32)]; 2] = [
+        &[(0, 0), (4, 0), (4, 2), (2, 2), (2, 1), (1, 1), (1, 2), (0, 2)],
+        &[(0, 0), (4, 0), (4, 2), (3, 2), (3, 3), (2, 3), (2, 1), (1, 1), (1, 2), (0, 2)],
+    ];
+    let mut out = vec![];
+    for (ci, c) in cat.iter().enumerate() {
+        let base: Vec<P2> = c.iter().map(|p| (p.0 as f64, p.1 as f64)).collect();
+        for rev in [false, true] {
+            let b = if rev { reversed(&base) } else { base.clone() };
+            for k in 0..b.len() {
+                let poly = rotate_start(&b, k);
+                let mut fr = Frame::random(r, 0.0);
+                while fr.kind != 0 { fr = Frame::random(r, 0.0); }
+                let outer: Vec<Point3D> = poly.iter().map(|p| fr.at(p.0, p.1)).collect();
+                out.push(PolyCase { outer, holes: vec![], note: format!("alignedchord{}:{}:h0:plane0", ci, poly.len()), bridge_ok: true, outer2: poly, holes2: vec![], fr });
+            }
+        }
+    }
+    out
+}
 pub fn run_fp(seed: u64, n: usize, out: &str, salt: u64) {
     let mut r = Rng::new(seed ^ salt);
     let mut sink = Sink::new(out, "Mesh", 4);
+    if n >= 90 { for pc in aligned_chord_corpus(&mut r) { fp_case(&pc, &mut sink); } }
     while sink.len() < n {
         let big = r.chance(0.25);
         let pc = rand_polycase(&mut r, if big { 40 } else { 12 }, 3, 1e9, 1000.0);
@@ -271,7 +313,7 @@ fn rf_case(pc: &PolyCase, max_area: Float, max_ar: Float, model_limit: usize, se
     let pars = format!("\"max_area\":{},\"max_ar\":{}", jf(max_area), jf(max_ar));
     match built {
         Err(c) => sink.push(
-            format!("CRF {}{}%N {} {} {}%nat 0%N [] 0%N", head, c, sf(max_area), sf(max_ar), MODEL_FUEL),
+            format!("CRF {}{}%N {} {} {}%nat 0%N [] 0%N {}", head, c, sf(max_area), sf(max_ar), MODEL_FUEL, NO_TRILIST),
             format!("{{\"kind\":\"rf\",\"note\":\"{}\",\"bridge_ok\":{},{},{},\"build\":{},\"o\":0,\"msg\":\"\",\"ms\":0,\"nvalid\":0,\"npieces\":0,\"valid\":[],\"trilist\":[],\"skipped\":false}}",
                     pc.note, pc.bridge_ok, poly_json(&pc.outer, &pc.holes, None), pars, c)),
         Ok(p) => {
@@ -286,12 +328,13 @@ fn rf_case(pc: &PolyCase, max_area: Float, max_ar: Float, model_limit: usize, se
                 Some(Err(m)) => (panic_class(&m), short_msg(&m), None),
             };
             let (pieces, nvalid, tl) = match &t { Some(t) => (snapshot(t), t.n_valid_triangles(), trilist_json(t)), None => (vec![], 0, "[]".to_string()) };
+            let tlc = match &t { Some(t) => trilist_coq(t), None => NO_TRILIST.to_string() };
             // the model is ~2000x slower than the crate: results that are large -- or runs that were long, whatever their outcome
             // (an Err or a panic can come after a long refinement) -- are not replayed by the model (oracles only)
             let skipped = oclass == 3000 || model_limit == 0 || pieces.len() > model_limit || ms > 0.02 * model_limit as f64;
             let valid: Vec<String> = pieces.iter().map(|p| (p.valid as u8).to_string()).collect();
             let coq = if skipped { format!("CSkip {}%N", if oclass == 3000 { 2 } else { 1 }) }
-                      else { format!("CRF {}0%N {} {} {}%nat {}%N {} {}%N", head, sf(max_area), sf(max_ar), MODEL_FUEL, oclass, pieces_coq(&pieces), nvalid) };
+                      else { format!("CRF {}0%N {} {} {}%nat {}%N {} {}%N {}", head, sf(max_area), sf(max_ar), MODEL_FUEL, oclass, pieces_coq(&pieces), nvalid, tlc) };
             sink.push(coq,
                 format!("{{\"kind\":\"rf\",\"note\":\"{}\",\"bridge_ok\":{},{},{},\"build\":0,\"o\":{},\"msg\":\"{}\",\"ms\":{:.3},\"nvalid\":{},\"npieces\":{},\"valid\":[{}],\"trilist\":{},\"skipped\":{}}}",
                         pc.note, pc.bridge_ok, pj, pars, oclass, msg, ms, nvalid, pieces.len(), valid.join(","), tl, skipped));
